@@ -6,6 +6,8 @@
           documented entry-wise formula, over any commutative ring with a conjugation.
 -/
 import Mathlib.Tactic.Ring
+import Mathlib.Algebra.Ring.MinimalAxioms
+import Mathlib.Data.List.Nodup
 import PulserModel.Hamiltonian
 
 namespace Pulser
@@ -150,7 +152,7 @@ theorem prodN_single (n i : Nat) (a : K) :
     · have : m ≠ i := by omega
       simp [h1, this, show i < m + 1 by omega]
     · by_cases h2 : m = i
-      · simp [h1, h2]
+      · simp [h2]
       · simp [h1, h2, show ¬ i < m + 1 by omega]
 
 theorem agreeOff_succ (m : Nat) (ex : List Nat) (s t : Nat → Nat) :
@@ -175,6 +177,362 @@ theorem prodN_delta (n : Nat) (ex : List Nat) (s t : Nat → Nat) :
       simp [h1, h2, h3]
 
 end Ring
+
+/-! ## Part B — matrix units -/
+
+/-- What is used of the conjugation: an involutive ring homomorphism. -/
+structure ConjLaws (K : Type) [CommRing K] [HasConj K] : Prop where
+  conj_add : ∀ a b : K, conj (a + b) = conj a + conj b
+  conj_mul : ∀ a b : K, conj (a * b) = conj a * conj b
+  conj_neg : ∀ a : K, conj (-a) = -conj a
+  conj_zero : conj (0 : K) = 0
+  conj_one : conj (1 : K) = 1
+  conj_conj : ∀ a : K, conj (conj a) = a
+
+section Units
+variable {K : Type} [CommRing K] [HasConj K]
+
+theorem agreeOff_symm (n : Nat) (ex : List Nat) (s t : Nat → Nat) :
+    agreeOff n ex s t ↔ agreeOff n ex t s := by
+  unfold agreeOff
+  constructor <;> intro h j hj hx <;> exact (h j hj hx).symm
+
+theorem sumN_conj (L : ConjLaws K) (n : Nat) (f : Nat → K) :
+    conj (sumN n f) = sumN n (fun i => conj (f i)) := by
+  induction n with
+  | zero => simp [sumN, L.conj_zero]
+  | succ m ih => simp only [sumN, L.conj_add, ih]
+
+omit [HasConj K] in
+theorem sumPairs_congr (n : Nat) (f g : Nat → Nat → K)
+    (h : ∀ i j, i < j → j < n → f i j = g i j) : sumPairs n f = sumPairs n g := by
+  unfold sumPairs
+  apply sumN_congr
+  intro i _
+  apply sumN_congr
+  intro j hj
+  by_cases hij : i < j
+  · simp [hij, h i j hij hj]
+  · simp [hij]
+
+omit [HasConj K] in
+theorem sumPairs_add (n : Nat) (f g : Nat → Nat → K) :
+    sumPairs n (fun i j => f i j + g i j) = sumPairs n f + sumPairs n g := by
+  unfold sumPairs
+  rw [← sumN_add]
+  apply sumN_congr
+  intro i _
+  rw [← sumN_add]
+  apply sumN_congr
+  intro j _
+  by_cases hij : i < j <;> simp [hij]
+
+theorem sumPairs_conj (L : ConjLaws K) (n : Nat) (f : Nat → Nat → K) :
+    conj (sumPairs n f) = sumPairs n (fun i j => conj (f i j)) := by
+  unfold sumPairs
+  rw [sumN_conj L]
+  apply sumN_congr
+  intro i _
+  rw [sumN_conj L]
+  apply sumN_congr
+  intro j _
+  by_cases hij : i < j <;> simp [hij, L.conj_zero]
+
+omit [HasConj K] in
+theorem sumPairs_zero (n : Nat) : sumPairs n (fun _ _ => (0 : K)) = 0 := by
+  unfold sumPairs
+  simp [sumN_zero]
+
+omit [HasConj K] in
+theorem opList_one (i : Nat) (A : Mat K) :
+    opList [(i, A)] = fun k => if k = i then A else Mat.id := by
+  simp [opList]
+
+omit [HasConj K] in
+theorem opList_two (i j : Nat) (A B : Mat K) :
+    opList [(i, A), (j, B)] = fun k => if k = j then B else if k = i then A else Mat.id := by
+  simp [opList]
+
+omit [HasConj K] in
+/-- Entry of "`A` on atom `i`" between two configurations. -/
+theorem buildOp_one (d n i : Nat) (A : Mat K) (s t : Nat → Nat) (hi : i < n)
+    (hs : ∀ j, j < n → s j < d) (ht : ∀ j, j < n → t j < d) :
+    buildOp d n [(i, A)] (idxOf d n s) (idxOf d n t)
+      = (if agreeOff n [i] s t then 1 else 0) * A (s i) (t i) := by
+  unfold buildOp
+  rw [tensorN_idxOf d n _ s t hs ht, opList_one]
+  have h : ∀ j, j < n → (fun k => if k = i then A else Mat.id) j (s j) (t j)
+      = (if j ∈ [i] then (1 : K) else if s j = t j then 1 else 0)
+        * (if j = i then A (s i) (t i) else 1) := by
+    intro j _
+    by_cases e : j = i
+    · subst e; simp
+    · simp [e, Mat.id]
+  rw [prodN_congr n _ _ h, prodN_mul, prodN_delta, prodN_single]
+  simp [hi]
+
+omit [HasConj K] in
+/-- Entry of "`A` on atom `i`, `B` on atom `j`". -/
+theorem buildOp_two (d n i j : Nat) (A B : Mat K) (s t : Nat → Nat) (hi : i < n) (hj : j < n)
+    (hij : i ≠ j) (hs : ∀ j, j < n → s j < d) (ht : ∀ j, j < n → t j < d) :
+    buildOp d n [(i, A), (j, B)] (idxOf d n s) (idxOf d n t)
+      = (if agreeOff n [i, j] s t then 1 else 0) * (A (s i) (t i) * B (s j) (t j)) := by
+  unfold buildOp
+  rw [tensorN_idxOf d n _ s t hs ht, opList_two]
+  have h : ∀ k, k < n → (fun k => if k = j then B else if k = i then A else Mat.id) k (s k) (t k)
+      = (if k ∈ [i, j] then (1 : K) else if s k = t k then 1 else 0)
+        * ((if k = i then A (s i) (t i) else 1) * (if k = j then B (s j) (t j) else 1)) := by
+    intro k _
+    by_cases e1 : k = i
+    · subst e1; simp [hij]
+    · by_cases e2 : k = j
+      · subst e2; simp [e1]
+      · simp [e1, e2, Mat.id]
+  rw [prodN_congr n _ _ h, prodN_mul, prodN_mul, prodN_delta, prodN_single, prodN_single]
+  simp [hi, hj]
+
+/-- The inputs that are real numbers are real, and `half` is one half. -/
+structure RealIn (c : HamIn K) : Prop where
+  half_real : conj c.half = c.half
+  half_add : c.half + c.half = 1
+  gdet_real : ∀ β, conj (c.glob β).det = (c.glob β).det
+  ldet_real : ∀ β q, q < c.n → conj (c.loc β q).det = (c.loc β q).det
+  U_real : ∀ i, i < c.n → ∀ j, j < c.n → conj (c.U i j) = c.U i j
+
+/-- One atom, one basis: `ca |a⟩⟨b| + cd |b⟩⟨b|` plus its hermitian conjugate. -/
+theorem drive_alg (L : ConjLaws K) (ag ag' Pab Pba Pba' Pbb Pbb' : Prop)
+    [Decidable ag] [Decidable ag'] [Decidable Pab] [Decidable Pba] [Decidable Pba']
+    [Decidable Pbb] [Decidable Pbb'] (hag : ag' ↔ ag) (hba : Pba' ↔ Pba) (hbb : Pbb' ↔ Pbb)
+    (ca cd : K) :
+    (ca * ((if ag then 1 else 0) * (if Pab then 1 else 0))
+      + cd * ((if ag then 1 else 0) * (if Pbb then 1 else 0)))
+    + conj (ca * ((if ag' then 1 else 0) * (if Pba' then 1 else 0))
+      + cd * ((if ag' then 1 else 0) * (if Pbb' then 1 else 0)))
+    = if ag then ((if Pab then ca else 0)
+        + ((if Pba then conj ca else 0) + (if Pbb then cd + conj cd else 0))) else 0 := by
+  by_cases h0 : ag <;> by_cases h1 : Pab <;> by_cases h2 : Pba <;> by_cases h3 : Pbb <;>
+    simp [h0, h1, h2, h3, hag, hba, hbb, L.conj_add, L.conj_zero] <;> ring
+
+omit [HasConj K] in
+theorem driveTerms_entry (c : HamIn K) (β : Basis) (s t : Nat → Nat)
+    (hs : ∀ j, j < c.n → s j < c.d) (ht : ∀ j, j < c.n → t j < c.d) :
+    driveTerms c β (idxOf c.d c.n s) (idxOf c.d c.n t)
+      = sumN c.n (fun q =>
+          (coeffAmp c (c.glob β) + coeffAmp c (c.loc β q))
+            * ((if agreeOff c.n [q] s t then 1 else 0) * sigma c.eb β.a β.b (s q) (t q))
+          + (coeffDet c (c.glob β) + coeffDet c (c.loc β q))
+            * ((if agreeOff c.n [q] s t then 1 else 0) * sigma c.eb β.b β.b (s q) (t q))) := by
+  simp only [driveTerms, globalTerms, localTerms, globalOp, Mat.add, Mat.smul, Mat.sumN]
+  rw [← sumN_mul_left, ← sumN_mul_left, ← sumN_add, ← sumN_add]
+  apply sumN_congr
+  intro q hq
+  rw [buildOp_one c.d c.n q _ s t hq hs ht, buildOp_one c.d c.n q _ s t hq hs ht]
+  ring
+
+theorem drive_pair (L : ConjLaws K) (c : HamIn K) (R : RealIn c) (β : Basis) (s t : Nat → Nat)
+    (hs : ∀ j, j < c.n → s j < c.d) (ht : ∀ j, j < c.n → t j < c.d) :
+    driveTerms c β (idxOf c.d c.n s) (idxOf c.d c.n t)
+      + conj (driveTerms c β (idxOf c.d c.n t) (idxOf c.d c.n s))
+      = sumN c.n (fun i => docDrive c β i s t) := by
+  rw [driveTerms_entry c β s t hs ht, driveTerms_entry c β t s ht hs, sumN_conj L, ← sumN_add]
+  apply sumN_congr
+  intro q hq
+  have hcd : (coeffDet c (c.glob β) + coeffDet c (c.loc β q))
+      + conj (coeffDet c (c.glob β) + coeffDet c (c.loc β q)) = -(totalDet c β q) := by
+    simp only [coeffDet, totalDet, L.conj_add, L.conj_mul, L.conj_neg, R.half_real, R.gdet_real,
+      R.ldet_real β q hq]
+    have : -c.half * (c.glob β).det + -c.half * (c.loc β q).det
+        + (-c.half * (c.glob β).det + -c.half * (c.loc β q).det)
+        = -((c.half + c.half) * ((c.glob β).det + (c.loc β q).det)) := by ring
+    rw [this, R.half_add]; ring
+  have h := drive_alg L (agreeOff c.n [q] s t) (agreeOff c.n [q] t s)
+    (isSt c.eb (s q) β.a ∧ isSt c.eb (t q) β.b) (isSt c.eb (s q) β.b ∧ isSt c.eb (t q) β.a)
+    (isSt c.eb (t q) β.a ∧ isSt c.eb (s q) β.b) (isSt c.eb (s q) β.b ∧ isSt c.eb (t q) β.b)
+    (isSt c.eb (t q) β.b ∧ isSt c.eb (s q) β.b) (agreeOff_symm _ _ _ _) and_comm and_comm
+    (coeffAmp c (c.glob β) + coeffAmp c (c.loc β q)) (coeffDet c (c.glob β) + coeffDet c (c.loc β q))
+  rw [hcd] at h
+  exact h
+
+/-- One pair, XY: `u |u⟩⟨d|_i |d⟩⟨u|_j` plus its hermitian conjugate. -/
+theorem pair_alg (L : ConjLaws K) (ag ag' A B A' B' P1 P2 : Prop)
+    [Decidable ag] [Decidable ag'] [Decidable A] [Decidable B] [Decidable A'] [Decidable B']
+    [Decidable P1] [Decidable P2] (hag : ag' ↔ ag) (h1 : P1 ↔ A ∧ B) (h2 : P2 ↔ A' ∧ B')
+    (u : K) (hu : conj u = u) :
+    u * ((if ag then 1 else 0) * ((if A then 1 else 0) * (if B then 1 else 0)))
+      + conj (u * ((if ag' then 1 else 0) * ((if A' then 1 else 0) * (if B' then 1 else 0))))
+    = if ag then ((if P1 then u else 0) + (if P2 then u else 0)) else 0 := by
+  by_cases h0 : ag <;> by_cases a : A <;> by_cases b : B <;> by_cases a' : A' <;> by_cases b' : B' <;>
+    simp [h0, a, b, a', b', hag, h1, h2, L.conj_zero, hu]
+
+/-- One pair, Ising: `w n_i n_j` plus its hermitian conjugate, `w + conj w = u`. -/
+theorem vdw_alg (L : ConjLaws K) (ag ag' A B A' B' : Prop)
+    [Decidable ag] [Decidable ag'] [Decidable A] [Decidable B] [Decidable A'] [Decidable B']
+    (hag : ag' ↔ ag) (hA : A' ↔ A) (hB : B' ↔ B) (w u : K) (hw : w + conj w = u) :
+    w * ((if ag then 1 else 0) * ((if A then 1 else 0) * (if B then 1 else 0)))
+      + conj (w * ((if ag' then 1 else 0) * ((if A' then 1 else 0) * (if B' then 1 else 0))))
+    = if ag ∧ A ∧ B then u else 0 := by
+  by_cases h0 : ag <;> by_cases a : A <;> by_cases b : B <;>
+    simp [h0, a, b, hag, hA, hB, L.conj_zero, hw]
+
+theorem not_isSt_of_not_mem (eb : List St) (k : Nat) (p : St) (h : p ∉ eb) : ¬ isSt eb k p := by
+  unfold isSt
+  intro e
+  exact h (List.mem_of_getElem? e)
+
+/-- The XY pair term plus its hermitian conjugate, between configurations. -/
+theorem xyTerm_pair (L : ConjLaws K) (c : HamIn K) (R : RealIn c) (i j : Nat) (s t : Nat → Nat)
+    (hi : i < c.n) (hj : j < c.n) (hne : i ≠ j)
+    (hs : ∀ j, j < c.n → s j < c.d) (ht : ∀ j, j < c.n → t j < c.d) :
+    xyTerm c i j (idxOf c.d c.n s) (idxOf c.d c.n t)
+      + conj (xyTerm c i j (idxOf c.d c.n t) (idxOf c.d c.n s)) = docXY c i j s t := by
+  simp only [xyTerm, Mat.smul]
+  rw [buildOp_two c.d c.n i j _ _ s t hi hj hne hs ht,
+    buildOp_two c.d c.n i j _ _ t s hi hj hne ht hs]
+  exact pair_alg L (agreeOff c.n [i, j] s t) (agreeOff c.n [i, j] t s)
+    (isSt c.eb (s i) .u ∧ isSt c.eb (t i) .d) (isSt c.eb (s j) .d ∧ isSt c.eb (t j) .u)
+    (isSt c.eb (t i) .u ∧ isSt c.eb (s i) .d) (isSt c.eb (t j) .d ∧ isSt c.eb (s j) .u)
+    _ _ (agreeOff_symm _ _ _ _)
+    ⟨fun ⟨a, b, c, d⟩ => ⟨⟨a, b⟩, ⟨c, d⟩⟩, fun ⟨⟨a, b⟩, ⟨c, d⟩⟩ => ⟨a, b, c, d⟩⟩
+    ⟨fun ⟨a, b, c, d⟩ => ⟨⟨b, a⟩, ⟨d, c⟩⟩, fun ⟨⟨b, a⟩, ⟨d, c⟩⟩ => ⟨a, b, c, d⟩⟩
+    (c.U i j) (R.U_real i hi j hj)
+
+/-- The van der Waals pair term (coefficient `U/2`) plus its hermitian conjugate. -/
+theorem vdwTerm_pair (L : ConjLaws K) (c : HamIn K) (R : RealIn c) (i j : Nat) (s t : Nat → Nat)
+    (hi : i < c.n) (hj : j < c.n) (hne : i ≠ j)
+    (hs : ∀ j, j < c.n → s j < c.d) (ht : ∀ j, j < c.n → t j < c.d) :
+    vdwTerm c i j (idxOf c.d c.n s) (idxOf c.d c.n t)
+      + conj (vdwTerm c i j (idxOf c.d c.n t) (idxOf c.d c.n s)) = docVdw c i j s t := by
+  simp only [vdwTerm, Mat.smul]
+  rw [buildOp_two c.d c.n i j _ _ s t hi hj hne hs ht,
+    buildOp_two c.d c.n i j _ _ t s hi hj hne ht hs]
+  have hw : c.half * c.U i j + conj (c.half * c.U i j) = c.U i j := by
+    rw [L.conj_mul, R.half_real, R.U_real i hi j hj]
+    have : c.half * c.U i j + c.half * c.U i j = (c.half + c.half) * c.U i j := by ring
+    rw [this, R.half_add]; ring
+  exact vdw_alg L (agreeOff c.n [i, j] s t) (agreeOff c.n [i, j] t s)
+    (isSt c.eb (s i) .r ∧ isSt c.eb (t i) .r) (isSt c.eb (s j) .r ∧ isSt c.eb (t j) .r)
+    (isSt c.eb (t i) .r ∧ isSt c.eb (s i) .r) (isSt c.eb (t j) .r ∧ isSt c.eb (s j) .r)
+    (agreeOff_symm _ _ _ _) and_comm and_comm _ _ hw
+
+theorem inter_pair (L : ConjLaws K) (c : HamIn K) (R : RealIn c) (s t : Nat → Nat)
+    (hs : ∀ j, j < c.n → s j < c.d) (ht : ∀ j, j < c.n → t j < c.d) :
+    interaction c (idxOf c.d c.n s) (idxOf c.d c.n t)
+      + conj (interaction c (idxOf c.d c.n t) (idxOf c.d c.n s))
+      = sumPairs c.n (fun i j => docPair c i j s t) := by
+  unfold interaction
+  by_cases h : (c.xy || c.eb.contains .r) = true
+  · simp only [h, if_true, interactionTerm, Mat.sumPairs]
+    rw [sumPairs_conj L, ← sumPairs_add]
+    apply sumPairs_congr
+    intro i j hij hj
+    have hi : i < c.n := by omega
+    have hne : i ≠ j := by omega
+    unfold docPair
+    by_cases hxy : c.xy = true
+    · simp only [hxy, if_true]
+      by_cases hm : (c.maskOn && (c.mask i || c.mask j)) = true
+      · simp [hm, Mat.zero, L.conj_zero]
+      · simp only [hm, Bool.false_eq_true, ↓reduceIte]
+        exact xyTerm_pair L c R i j s t hi hj hne hs ht
+    · simp only [hxy, Bool.false_eq_true, ↓reduceIte]
+      exact vdwTerm_pair L c R i j s t hi hj hne hs ht
+  · have hxy : c.xy = false := by
+      cases hx : c.xy <;> simp [hx] at h ⊢
+    have hr : St.r ∉ c.eb := by
+      intro hmem
+      apply h
+      simp [hxy, hmem]
+    simp only [h, Bool.false_eq_true, ↓reduceIte]
+    have hz : sumPairs c.n (fun i j => docPair c i j s t) = sumPairs c.n (fun _ _ => (0 : K)) := by
+      apply sumPairs_congr
+      intro i j _ _
+      unfold docPair docVdw
+      have := not_isSt_of_not_mem c.eb (s i) .r hr
+      simp [hxy, this]
+    rw [hz, sumPairs_zero]
+    simp [Mat.zero, L.conj_zero]
+
+/-- **Code = documentation, between configurations.** -/
+theorem H_code_idxOf (L : ConjLaws K) (c : HamIn K) (R : RealIn c) (s t : Nat → Nat)
+    (hs : ∀ j, j < c.n → s j < c.d) (ht : ∀ j, j < c.n → t j < c.d) :
+    H_code c (idxOf c.d c.n s) (idxOf c.d c.n t) = H_docC c s t := by
+  unfold H_docC
+  rw [← inter_pair L c R s t hs ht, ← drive_pair L c R .groundRydberg s t hs ht,
+    ← drive_pair L c R .digital s t hs ht, ← drive_pair L c R .XY s t hs ht]
+  simp only [H_code, hamHalf, Mat.add, Mat.dagger, L.conj_add]
+  ring
+
+/-- `H = T + T†` is hermitian whatever `T` is. -/
+theorem H_code_herm (L : ConjLaws K) (c : HamIn K) (k l : Nat) :
+    H_code c l k = conj (H_code c k l) := by
+  simp only [H_code, Mat.add, Mat.dagger, L.conj_add, L.conj_conj]
+  ring
+
+omit [HasConj K] in
+theorem docVdw_agree (c : HamIn K) (hnd : c.eb.Nodup) (i j : Nat) (s t : Nat → Nat)
+    (hi : i < c.n) (hj : j < c.n) (h : docVdw c i j s t ≠ 0) : ∀ k, k < c.n → s k = t k := by
+  unfold docVdw at h
+  split at h
+  · rename_i hc
+    obtain ⟨hag, ⟨h1, h2⟩, ⟨h3, h4⟩⟩ := hc
+    have inj : ∀ a b : Nat, isSt c.eb a .r → isSt c.eb b .r → a = b := by
+      intro a b ha hb
+      unfold isSt at ha hb
+      obtain ⟨ha1, ha2⟩ := List.getElem?_eq_some_iff.mp ha
+      obtain ⟨hb1, hb2⟩ := List.getElem?_eq_some_iff.mp hb
+      exact (List.Nodup.getElem_inj_iff hnd).mp (ha2.trans hb2.symm)
+    intro k hk
+    by_cases e1 : k = i
+    · subst e1; exact inj _ _ h1 h2
+    · by_cases e2 : k = j
+      · subst e2; exact inj _ _ h3 h4
+      · exact hag k hk (by simp [e1, e2])
+  · exact absurd rfl h
+
+end Units
+
+/-! ## the concrete scalars `Cx R` -/
+
+namespace Cx
+variable {R : Type} [CommRing R]
+
+omit [CommRing R] in
+@[ext] theorem ext' {a b : Cx R} (h1 : a.re = b.re) (h2 : a.im = b.im) : a = b := by
+  cases a; cases b; simp_all
+
+@[simp] theorem add_re (a b : Cx R) : (a + b).re = a.re + b.re := rfl
+@[simp] theorem add_im (a b : Cx R) : (a + b).im = a.im + b.im := rfl
+@[simp] theorem mul_re (a b : Cx R) : (a * b).re = a.re * b.re - a.im * b.im := rfl
+@[simp] theorem mul_im (a b : Cx R) : (a * b).im = a.re * b.im + a.im * b.re := rfl
+@[simp] theorem neg_re (a : Cx R) : (-a).re = -a.re := rfl
+@[simp] theorem neg_im (a : Cx R) : (-a).im = -a.im := rfl
+@[simp] theorem zero_re : (0 : Cx R).re = 0 := rfl
+@[simp] theorem zero_im : (0 : Cx R).im = 0 := rfl
+@[simp] theorem one_re : (1 : Cx R).re = 1 := rfl
+@[simp] theorem one_im : (1 : Cx R).im = 0 := rfl
+@[simp] theorem conj_re (a : Cx R) : (conj a).re = a.re := rfl
+@[simp] theorem conj_im (a : Cx R) : (conj a).im = -a.im := rfl
+
+/-- Pairs over a commutative ring form a commutative ring (with the model's `+ * - 0 1`). -/
+instance commRing : CommRing (Cx R) :=
+  CommRing.ofMinimalAxioms
+    (by intro a b c; ext <;> simp <;> ring)
+    (by intro a; ext <;> simp)
+    (by intro a; ext <;> simp)
+    (by intro a b c; ext <;> simp <;> ring)
+    (by intro a b; ext <;> simp <;> ring)
+    (by intro a; ext <;> simp)
+    (by intro a b c; ext <;> simp <;> ring)
+
+theorem conjLaws : ConjLaws (Cx R) where
+  conj_add := by intro a b; ext <;> simp; ring
+  conj_mul := by intro a b; ext <;> simp; ring
+  conj_neg := by intro a; ext <;> simp
+  conj_zero := by ext <;> simp
+  conj_one := by ext <;> simp
+  conj_conj := by intro a; ext <;> simp
+
+end Cx
 
 end Ham
 end Pulser
